@@ -123,6 +123,10 @@ func newH(c *sim.Case, w *sim.World, nb int, mons ...monitor) *H {
 		// the second browser also holds cookies that are none of the service's business
 		h.bs[1].Extra, h.bs[1].After = []string{"theme=dark"}, []string{"_ga=GA1.2.3"}
 	}
+	if nb > 2 {
+		// the third one is a script, not a navigation: what it is answered is bound by the same rules
+		h.bs[2].Headers = map[string]string{"x-requested-with": "XMLHttpRequest", "sec-fetch-dest": "empty", "sec-fetch-mode": "cors", "accept": "application/json", "origin": "https://app.test"}
+	}
 	h.lastLoc = make([]string, nb)
 	h.pending = make([]string, nb)
 	h.lastTgt = make([]string, nb)
